@@ -3,6 +3,8 @@
    Rust by the c18b11 / c18b12 differentials).  ECDSA / Schnorr and the `bech32` crate are trusted
    dependencies: nothing below is about them. -/
 import LdkModel.Proofs.Bech32
+import LdkModel.Proofs.Merkle
+import LdkModel.Proofs.OfferMeta
 namespace Ldk.C18
 open Ldk.Prim.Bech32
 
@@ -47,5 +49,189 @@ theorem bech32_single_symbol_detected (hrp : List UInt8) (pre post : List U5) (a
 example : verifyChecksum [0x61] [10, 28, 25, 31, 20, 31] = true := by decide
 example : verifyChecksum [0x61] [10, 28, 25, 31, 20, 30] = false :=
   bech32_single_symbol_detected [0x61] [10, 28, 25, 31, 20] [] 31 30 (by decide) (by decide)
+
+/-! ## BOLT-12: merkle root binding -/
+section merkle
+open Ldk.Merkle
+
+/-- Binding of the BOLT-12 merkle root: two TLV streams with strictly ascending types (what every
+    offers parser enforces) and equal roots have the same non-signature records — same type bytes,
+    same record bytes, same order — provided the tagged hash has no collision among the queries the
+    two root computations actually make.  (Signature records 240..=1000 are not covered by the root:
+    that is what is signed.) -/
+theorem merkle_binding (H : Tag → Bytes → Bytes) (rs₁ rs₂ : List Rec)
+    (hcf : CollisionFreeOn H (queriesOf H rs₁ ++ queriesOf H rs₂))
+    (h₁ : rs₁.Pairwise (fun a b => a.ty < b.ty)) (h₂ : rs₂.Pairwise (fun a b => a.ty < b.ty))
+    (he : rootHash H rs₁ = rootHash H rs₂) : nonSig rs₁ = nonSig rs₂ := by
+  by_cases e₁ : nonSig rs₁ = [] <;> by_cases e₂ : nonSig rs₂ = []
+  · rw [e₁, e₂]
+  · have := rootHash_length H hcf.len rs₂ e₂
+    rw [← he, rootHash_nil_of_nonSig_nil H rs₁ e₁] at this
+    simp at this
+  · have := rootHash_length H hcf.len rs₁ e₁
+    rw [he, rootHash_nil_of_nonSig_nil H rs₂ e₂] at this
+    simp at this
+  · match rs₁, rs₂, e₁, e₂ with
+    | f₁ :: r₁, f₂ :: r₂, e₁, e₂ =>
+      obtain ⟨t₁, ht₁, hl₁, hh₁⟩ := rootHash_tree H _ f₁ r₁ rfl e₁
+      obtain ⟨t₂, ht₂, hl₂, hh₂⟩ := rootHash_tree H _ f₂ r₂ rfl e₂
+      have hq : queriesOf H (f₁ :: r₁) ++ queriesOf H (f₂ :: r₂)
+          = t₁.queries H f₁.recordBytes ++ t₂.queries H f₂.recordBytes := by
+        simp only [queriesOf, ht₁, ht₂]
+      rw [hq] at hcf
+      have hp := T.leaves_perm_of_hash_eq H _ _ t₁ t₂ hcf (by rw [← hh₁, ← hh₂]; exact he)
+      rw [hl₁, hl₂] at hp
+      refine List.Perm.eq_of_pairwise ?_ (List.Pairwise.filter _ h₁) (List.Pairwise.filter _ h₂) hp
+      intro a b _ _ hab hba
+      exact absurd hab (Nat.lt_asymm hba)
+
+/-- the same under the textbook idealisation "H is injective with 32-byte outputs" (kept because
+    the design names it; `CollisionFree` is unsatisfiable by counting, `merkle_binding` is the
+    meaningful statement) -/
+theorem merkle_binding_ideal (H : Tag → Bytes → Bytes) (hH : CollisionFree H) (rs₁ rs₂ : List Rec)
+    (h₁ : rs₁.Pairwise (fun a b => a.ty < b.ty)) (h₂ : rs₂.Pairwise (fun a b => a.ty < b.ty))
+    (he : rootHash H rs₁ = rootHash H rs₂) : nonSig rs₁ = nonSig rs₂ :=
+  merkle_binding H rs₁ rs₂ (hH.on _) h₁ h₂ he
+
+/-- non-vacuity: a toy 32-byte tagged hash (tag byte, then the byte sum repeated) is collision free
+    on the queries of two different one-record streams, so the theorem separates their roots -/
+def toyH : Tag → Bytes → Bytes
+  | .leaf, m => 0 :: List.replicate 31 (m.foldl (· + ·) 0)
+  | .nonce f, m => 1 :: List.replicate 31 (m.foldl (· + ·) (f.foldl (· + ·) 0))
+  | .branch, m => 2 :: List.replicate 31 (m.foldl (· + ·) 0)
+
+def toyRec (v : UInt8) : Rec := ⟨[1], [1, 1, v]⟩
+
+set_option maxRecDepth 8000 in
+theorem toyH_cf : CollisionFreeOn toyH (queriesOf toyH [toyRec 7] ++ queriesOf toyH [toyRec 9]) :=
+  ⟨by decide, by intro t m; cases t <;> simp [toyH]⟩
+
+example : rootHash toyH [toyRec 7] ≠ rootHash toyH [toyRec 9] := fun he =>
+  absurd (merkle_binding toyH [toyRec 7] [toyRec 9] toyH_cf (by simp) (by simp) he) (by decide)
+
+end merkle
+
+/-! ## BOLT-12: stateless metadata -/
+section metadata
+open Ldk.OfferMeta
+
+variable (mac : Bytes → Bytes → Bytes) (pubOf : Bytes → Bytes)
+
+/-- Recipient metadata (an offer's `metadata`) verifies without key derivation exactly when it IS
+    the metadata derived from this key, this IV, its own 16-byte nonce and these TLV records. -/
+theorem metadata_verify_iff (hlen : ∀ k m, (mac k m).length = 32) (key iv pk tlvs md : Bytes) :
+    verifyRecipient mac pubOf key iv pk tlvs md = .okNoKeys ↔
+      ∃ nonce, nonce.length = 16 ∧ md = deriveMetadata mac key iv nonce none tlvs := by
+  unfold verifyRecipient
+  by_cases hl : md.length < 16
+  · have : verifyHmac mac key iv md none tlvs = none := by simp [verifyHmac, NONCE_LEN, hl]
+    simp only [this]
+    constructor
+    · intro h; simp at h
+    · rintro ⟨nonce, hn, rfl⟩
+      simp only [deriveMetadata, Option.getD_none, List.nil_append, List.length_append, hn] at hl
+      omega
+  · rw [verifyHmac_eq mac key iv md none tlvs hl]
+    simp only [verifyTail_noKeys]
+    constructor
+    · rintro ⟨h48, hd⟩
+      refine ⟨md.take 16, by simp; omega, ?_⟩
+      have h16 : ¬ md.length = 16 := by omega
+      simp only [h16, ↓reduceIte] at hd
+      unfold deriveMetadata
+      simp only [Option.getD_none, List.nil_append]
+      rw [← hd, List.take_append_drop]
+    · rintro ⟨nonce, hn, rfl⟩
+      have hm := hlen key (iv ++ nonce ++ tlvs ++ DERIVED_METADATA_HMAC_INPUT ++ pidInput none)
+      unfold deriveMetadata
+      simp only [Option.getD_none, List.nil_append]
+      have hlen' : (nonce ++ mac key (iv ++ nonce ++ tlvs ++ DERIVED_METADATA_HMAC_INPUT ++ pidInput none)).length = 48 := by
+        rw [List.length_append, hn, hm]
+      have h16 : ¬ (nonce ++ mac key (iv ++ nonce ++ tlvs ++ DERIVED_METADATA_HMAC_INPUT ++ pidInput none)).length = 16 := by omega
+      refine ⟨hlen', ?_⟩
+      simp only [h16, ↓reduceIte]
+      rw [List.take_left' hn, List.drop_left' hn]
+
+/-- …and with key derivation (16-byte metadata = nonce only): the verdict carries the HMAC as the
+    signing secret, accepted exactly when its public key is the signing key of the message. -/
+theorem metadata_verify_keys_iff (key iv pk tlvs md sk : Bytes) :
+    verifyRecipient mac pubOf key iv pk tlvs md = .okKeys sk ↔
+      md.length = 16 ∧ sk = (deriveMetadataAndKey mac key iv md none tlvs).2 ∧ pubOf sk = pk := by
+  unfold verifyRecipient
+  by_cases hl : md.length < 16
+  · have : verifyHmac mac key iv md none tlvs = none := by simp [verifyHmac, NONCE_LEN, hl]
+    simp only [this]
+    constructor
+    · intro h; simp at h
+    · rintro ⟨h16, _⟩; omega
+  · rw [verifyHmac_eq mac key iv md none tlvs hl]
+    simp only [verifyTail_keys, deriveMetadataAndKey, Option.getD_none, List.nil_append]
+    constructor
+    · rintro ⟨h16, rfl, hp⟩
+      have ht : List.take 16 md = md := List.take_of_length_le (by omega)
+      simp only [h16, ↓reduceIte, ht] at hp ⊢
+      exact ⟨trivial, trivial, hp⟩
+    · rintro ⟨h16, rfl, hp⟩
+      have ht : List.take 16 md = md := List.take_of_length_le (by omega)
+      simp only [h16, ↓reduceIte, ht]
+      exact ⟨trivial, trivial, hp⟩
+
+/-- Payer metadata (an invoice request's / refund's `payer_metadata`): a 32-byte encrypted payment
+    id, then the recipient layout; same statement with the id bound into the MAC. -/
+theorem payer_metadata_verify_iff (hlen : ∀ k m, (mac k m).length = 32) (key iv pk tlvs md : Bytes) :
+    verifyPayer mac pubOf key iv pk tlvs md = .okNoKeys ↔
+      ∃ pid nonce, pid.length = 32 ∧ nonce.length = 16 ∧
+        md = deriveMetadata mac key iv nonce (some pid) tlvs := by
+  unfold verifyPayer
+  simp only [PAYMENT_ID_LEN]
+  by_cases hl32 : md.length < 32
+  · simp only [hl32, ↓reduceIte]
+    constructor
+    · intro h; simp at h
+    · rintro ⟨pid, nonce, hp, hn, rfl⟩
+      simp only [deriveMetadata, Option.getD_some, List.length_append, hp] at hl32
+      omega
+  · simp only [hl32, ↓reduceIte]
+    by_cases hl : (md.drop 32).length < 16
+    · have : verifyHmac mac key iv (md.drop 32) (some (md.take 32)) tlvs = none := by
+        have hl' := hl
+        simp only [List.length_drop] at hl'
+        simp [verifyHmac, NONCE_LEN, hl']
+      simp only [this]
+      constructor
+      · intro h; simp at h
+      · rintro ⟨pid, nonce, hp, hn, rfl⟩
+        simp only [deriveMetadata, Option.getD_some, List.append_assoc, List.drop_left' hp,
+          List.length_append, hn] at hl
+        omega
+    · rw [verifyHmac_eq mac key iv _ _ tlvs hl]
+      simp only [verifyTail_noKeys]
+      constructor
+      · rintro ⟨h48, hd⟩
+        refine ⟨md.take 32, (md.drop 32).take 16, by simp; omega, by simp at hl ⊢; omega, ?_⟩
+        have h16 : ¬ (md.drop 32).length = 16 := by omega
+        simp only [h16, ↓reduceIte] at hd
+        unfold deriveMetadata
+        simp only [Option.getD_some]
+        rw [← hd, List.append_assoc, List.take_append_drop, List.take_append_drop]
+      · rintro ⟨pid, nonce, hp, hn, rfl⟩
+        have hm := hlen key (iv ++ nonce ++ tlvs ++ DERIVED_METADATA_HMAC_INPUT ++ pidInput (some pid))
+        unfold deriveMetadata
+        simp only [Option.getD_some, List.append_assoc, List.drop_left' hp, List.take_left' hp]
+        have hlen' : (nonce ++ mac key (iv ++ (nonce ++ (tlvs ++ (DERIVED_METADATA_HMAC_INPUT ++ pidInput (some pid)))))).length = 48 := by
+          simp only [List.append_assoc] at hm
+          rw [List.length_append, hn, hm]
+        have h16 : ¬ (nonce ++ mac key (iv ++ (nonce ++ (tlvs ++ (DERIVED_METADATA_HMAC_INPUT ++ pidInput (some pid)))))).length = 16 := by omega
+        refine ⟨hlen', ?_⟩
+        simp only [h16, ↓reduceIte]
+        rw [List.take_left' hn, List.drop_left' hn]
+
+/-- non-vacuity: with a constant 32-byte "mac", derived metadata verifies and a changed byte does not -/
+example : verifyRecipient (fun _ _ => List.replicate 32 7) id [] [] [] []
+    (deriveMetadata (fun _ _ => List.replicate 32 7) [] [] (List.replicate 16 1) none []) = .okNoKeys := by decide
+example : verifyRecipient (fun _ _ => List.replicate 32 7) id [] [] [] []
+    (List.replicate 16 1 ++ List.replicate 32 8) = .err := by decide
+
+end metadata
 
 end Ldk.C18
